@@ -89,6 +89,9 @@ def module_level_checks(items, sig, nts, tenum, ts, ttypes, start):
     p1, p2, st, t1, p3, t2 = m.groups()
     if not (p1 == p2 == p3) or st != start or t1 != tenum or t2 != tenum:
         return "parse signature %r does not take IntoIterator<Item = %s> and return Result<%s, Option<%s>>" % (sig, tenum, start, tenum)
+    if p1 in nts or p1 == tenum:
+        # the generic parameter shadows a declared type: `Result<S, ..>` / `Item = T` then name the parameter, not the type
+        return "the type parameter %s of parse shadows the declared type of the same name, so %r does not name the start type / terminal enum" % (p1, sig)
     return None
 
 
@@ -213,12 +216,44 @@ def check(prop, tier, seed):
     run.sample({"src": srcs[len(srcs) // 2][0], "predicted_shape": preds[len(preds) // 2]["shape"]})
     # seeded random larger grammars: module-level checks + client
     extra = []
+    named = []
     for _ in range(160 if tier == "quick" else 8000):
         G = pipeline.random_grammar(rng, max_nts=5, max_ts=4, max_rules=10, max_rhs=6)
         pres = grammar.present(G, rng, payload=None)
         for t in pres["ts"]:
             pres["ttypes"][t] = rng.choice(emitted.PAYLOAD_TYPES)
         extra.append({"G": G, "pres": pres, "src": grammar.render(G, pres, attrs=False)})
+    # names a generator is tempted to use for parse's own type parameter, as start symbol / other nonterminal / terminal
+    # enum, for a struct, an ordinary enum and a VARIANT-LESS enum (no production, still a declared type)
+    for nm in ("S", "T", "I", "Iter", "Item", "Src", "S2", "T2"):
+        for decl in ("struct %s { a: $A }", "enum %s { V($A) W }", "enum %s {}"):
+            for role in ("start", "other", "tenum"):
+                if role == "tenum":
+                    src = "start Root\nstruct Root { a: $A }\nterminal %s { $A: u32 }\n" % nm
+                    G0 = {"nts": ["Root"], "ts": ["$A"], "start": "Root", "rules": [{"lhs": "Root", "rhs": ["$A"]}]}
+                    pres0 = {"nts": ["Root"], "ts": ["$A"], "ttypes": {"$A": "u32"}, "tenum": nm}
+                    if decl != "struct %s { a: $A }":
+                        continue
+                elif role == "start":
+                    src = "start %s\n%s\nterminal Tok { $A: u32 }\n" % (nm, decl % nm)
+                    G0 = {"nts": [nm], "ts": ["$A"], "start": nm, "rules": []}
+                    pres0 = {"nts": [nm], "ts": ["$A"], "ttypes": {"$A": "u32"}, "tenum": "Tok"}
+                else:
+                    src = "start Root\nstruct Root { a: $A }\n%s\nterminal Tok { $A: u32 }\n" % (decl % nm)
+                    G0 = {"nts": ["Root", nm], "ts": ["$A"], "start": "Root", "rules": []}
+                    pres0 = {"nts": ["Root", nm], "ts": ["$A"], "ttypes": {"$A": "u32"}, "tenum": "Tok"}
+                named.append({"G": G0, "pres": pres0, "src": src})
+    nresps = common.kv("gen", [{"id": i, "src": c["src"], "want": ["rust"]} for i, c in enumerate(named)], timeout=600)
+    for c, o in zip(named, nresps):
+        if o["res"]["t"] != "ok":
+            continue
+        run.evaluations += 1
+        run.traces += 1
+        items, sig = rustparse.parse_items(o["res"]["rust"])
+        why = module_level_checks(items, sig, c["pres"]["nts"], c["pres"]["tenum"], c["pres"]["ts"], c["pres"]["ttypes"], c["G"]["start"])
+        if why:
+            run.violation(vcase(why, c["src"]))
+        run.nontrivial.add(("named-like-a-type-parameter", c["src"]))
     resps = common.kv("gen", [{"id": i, "src": c["src"], "want": ["rust", "grammar"]} for i, c in enumerate(extra)], timeout=1800)
     for c, o in zip(extra, resps):
         if o["res"]["t"] != "ok":
